@@ -52,7 +52,10 @@ ASSUMPTIONS = [
 ]
 QUICK = dict(cases=10000, workers=2, timecap=45)
 THOROUGH = dict(cases=600000, workers=16, timecap=600)
-REQUIRED = {"bins_gauss": 20000, "bins_stark": 5000, "total": 1500, "pol_sum": 10000, "zero_width": 60, "adds": 200}
+REQUIRED = {"bins_gauss": 20000, "bins_stark": 5000, "total": 1500, "pol_sum": 10000, "zero_width": 60, "adds": 200,
+            "judged:GaussianLine": 30, "judged:MultipletLineShape": 30, "judged:ZeemanTriplet": 30,
+            "judged:ParametrisedZeemanTriplet": 30, "judged:ZeemanMultiplet": 30, "judged:StarkBroadenedLine": 60,
+            "judged:BeamEmissionMultiplet": 30}
 
 MODELS = ["GaussianLine", "MultipletLineShape", "ZeemanTriplet", "ParametrisedZeemanTriplet", "ZeemanMultiplet",
           "StarkBroadenedLine", "BeamEmissionMultiplet"]
@@ -740,6 +743,7 @@ def run_case(case, ctx):
 
     # ---- per-bin profile and window total ---------------------------------------------------------------------------
     if not skip_branch:
+        ctx.mon("judged:" + model)
         for pol in pols:
             P = prof[pol]
             comps = parts[pol]
